@@ -30,6 +30,11 @@ pub enum Req {
 #[derive(Debug, Clone)]
 pub struct Case {
     pub reqs: Vec<(Req, Option<Fault>)>,
+    /// request i is issued together with request i+1 (both sit in the keyspace's mailbox before either is answered),
+    /// the oracle runs when the whole group has been answered
+    pub glue: Vec<bool>,
+    /// the store performs its k-th write `pattern[k % len]` simulated ms after it was asked to (empty = at once)
+    pub write_delay: Vec<u64>,
 }
 
 pub struct C02;
@@ -150,6 +155,18 @@ impl ReqGen {
     }
 }
 
+/// Per-call latency of the store before a write lands: none (three cases in five), uniform, or varying from call to call
+/// (a later call overtakes an earlier one unless the caller awaited it).
+pub fn gen_write_delay(src: &mut Src) -> Vec<u64> {
+    match src.below(10) {
+        0..=5 => vec![],
+        6 => vec![1],
+        7 => vec![4, 0],
+        8 => vec![0, 5, 1],
+        _ => vec![7, 0, 0, 2],
+    }
+}
+
 pub fn gen_fault(src: &mut Src) -> Option<Fault> {
     match src.weighted(&[8, 1, 1, 1]) {
         0 => None,
@@ -224,8 +241,11 @@ impl Prop for C02 {
     fn gen(&self, src: &mut Src) -> Case {
         let mut g = ReqGen::new(src);
         let n = 1 + src.below(25);
-        let reqs = (0..n).map(|_| (g.req(src), gen_fault(src))).collect();
-        Case { reqs }
+        let reqs: Vec<_> = (0..n).map(|_| (g.req(src), gen_fault(src))).collect();
+        let pipelined = src.chance(1, 3);
+        let glue = (0..n).map(|_| pipelined && src.chance(1, 2)).collect();
+        let write_delay = gen_write_delay(src);
+        Case { reqs, glue, write_delay }
     }
 
     fn run(&self, case: &Case) -> Outcome {
@@ -233,17 +253,21 @@ impl Prop for C02 {
     }
 
     fn describe(&self, case: &Case) -> Value {
-        json!(case
+        json!({"store_write_delay_ms_per_call": case.write_delay, "requests": case
             .reqs
             .iter()
-            .map(|(r, f)| {
+            .enumerate()
+            .map(|(i, (r, f))| {
                 let mut j = req_json(r);
                 if let Some(f) = f {
                     j["storage_fault"] = json!(format!("{:?}", f));
                 }
+                if case.glue[i] {
+                    j["issued_together_with_the_next"] = json!(true);
+                }
                 j
             })
-            .collect::<Vec<_>>())
+            .collect::<Vec<_>>()})
     }
 
     fn rule(&self) -> &'static str {
@@ -251,6 +275,8 @@ impl Prop for C02 {
          Set|MultiSet|Del|MultiDel|Purge over 1-2 keyspaces with stamps from 1-3 origins spread over up to 6 h in any \
          arrival order, both sources; bulk requests with distinct ids sharing one stamp (what put_many/del_many send), distinct ids with own stamps, \
          or repeated ids in ascending / descending stamp order; storage faults: fail before writing, write the first j items and report exactly those, or write an arbitrary subset of the items and report exactly those; \
+         in a third of the cases runs of 2-4 fault-free requests are issued together (all in the mailbox before any is answered) and judged when all are answered; \
+         in two cases out of five the store performs its writes 0-7 simulated ms after being asked (uniform or varying from call to call); \
          oracle after EVERY request: {(id,stamp,tombstone)} held by storage == live+tombstone entries of the \
          deserialised Serialize reply, and live ids have bytes in storage; non-trivial = a request older than an \
          applied stamp of the same origin on the same source, or an injected failure, or an effective purge"
@@ -263,7 +289,46 @@ async fn run(case: &Case) -> Outcome {
     let mut newest: BTreeMap<(usize, usize, u8), Stamp> = BTreeMap::new();
     let (mut late, mut faulted, mut purged, mut dup_desc, mut dup_asc) = (false, false, false, false, false);
 
+    store.inner.lock().write_delay_pattern = case.write_delay.clone();
+    let mut pipelined = false;
+    let mut skip_until = 0usize;
     for (i, (req, fault)) in case.reqs.iter().enumerate() {
+        if i < skip_until {
+            continue;
+        }
+        // a run of fault-free requests glued together is issued at once
+        let mut j = i;
+        while j + 1 < case.reqs.len() && j - i < 3 && case.glue[j] && case.reqs[j].1.is_none() && case.reqs[j + 1].1.is_none() {
+            j += 1;
+        }
+        if j > i {
+            pipelined = true;
+            skip_until = j + 1;
+            for (r, _) in &case.reqs[i..=j] {
+                match r {
+                    Req::Set { ks, source, w } | Req::Del { ks, source, w } => {
+                        let e = newest.entry((*ks, *source, w.stamp.node)).or_insert(w.stamp);
+                        if *e > w.stamp { late = true } else { *e = w.stamp }
+                    },
+                    Req::MultiSet { ks, source, ws } | Req::MultiDel { ks, source, ws } => {
+                        for w in ws {
+                            let e = newest.entry((*ks, *source, w.stamp.node)).or_insert(w.stamp);
+                            if *e > w.stamp { late = true } else { *e = w.stamp }
+                        }
+                    },
+                    Req::Purge { .. } => {},
+                }
+            }
+            let tomb_before: usize = (0..2).map(|k| store_view(&store, &ks_name(k)).dead.len()).sum();
+            futures::future::join_all(case.reqs[i..=j].iter().map(|(r, _)| send_req(&group, r))).await;
+            let tomb_after: usize = (0..2).map(|k| store_view(&store, &ks_name(k)).dead.len()).sum();
+            if case.reqs[i..=j].iter().any(|(r, _)| matches!(r, Req::Purge { .. })) && tomb_after < tomb_before {
+                purged = true;
+            }
+            let what = format!("requests {i}..={j} issued together ({})", case.reqs[i..=j].iter().map(|(r, _)| req_json(r).to_string()).collect::<Vec<_>>().join(", "));
+            compare(&group, &store, &what).await?;
+            continue;
+        }
         // bookkeeping for labels
         let mut note = |ks: usize, source: usize, s: Stamp| {
             let e = newest.entry((ks, source, s.node)).or_insert(s);
@@ -348,29 +413,12 @@ async fn run(case: &Case) -> Outcome {
             purged = true;
         }
 
-        ensure!(
-            store.inner.lock().removed_live == 0,
-            "purge-removed-live-document",
-            "request {i} ({}) made the node ask storage to remove the tombstone of an id that holds a live document",
-            req_json(req)
-        );
-        for k in 0..2 {
-            let name = ks_name(k);
-            let set = actor_view(&group, &name).await;
-            let st = store_view(&store, &name);
-            ensure!(
-                set == st,
-                "set-store-disagree",
-                "after request {i} ({}) keyspace {name}: set {:?} but storage {:?}",
-                req_json(req),
-                set,
-                st
-            );
-            let docs = store.docs(&name);
-            for id in set.live.keys() {
-                ensure!(docs.contains_key(id), "live-without-bytes", "after request {i}: id {id} is live but storage has no bytes");
-            }
-        }
+        compare(&group, &store, &format!("request {i} ({})", req_json(req))).await?;
+    }
+    // whatever the node still does in the background once everything was answered must not undo the agreement
+    if !case.write_delay.is_empty() {
+        tokio::time::sleep(std::time::Duration::from_millis(50)).await;
+        compare(&group, &store, "50 ms after the last request was answered").await?;
     }
 
     let mut labels = vec![];
@@ -389,7 +437,32 @@ async fn run(case: &Case) -> Outcome {
     if dup_desc {
         labels.push("dup_desc");
     }
+    if pipelined {
+        labels.push("requests_issued_together");
+    }
+    if !case.write_delay.is_empty() {
+        labels.push("store_writes_late");
+    }
     Ok(Pass { nontrivial: late || faulted || purged, labels })
+}
+
+async fn compare(group: &e2::Group, store: &ModelStore, what: &str) -> Result<(), crate::core::Fail> {
+    ensure!(
+        store.inner.lock().removed_live == 0,
+        "purge-removed-live-document",
+        "{what} made the node ask storage to remove the tombstone of an id that holds a live document"
+    );
+    for k in 0..2 {
+        let name = ks_name(k);
+        let set = actor_view(group, &name).await;
+        let st = store_view(store, &name);
+        ensure!(set == st, "set-store-disagree", "after {what} keyspace {name}: set {:?} but storage {:?}", set, st);
+        let docs = store.docs(&name);
+        for id in set.live.keys() {
+            ensure!(docs.contains_key(id), "live-without-bytes", "after {what}: id {id} is live but storage has no bytes");
+        }
+    }
+    Ok(())
 }
 
 pub fn parts() -> Vec<Box<dyn DynPart>> {
